@@ -95,6 +95,13 @@ fn lib_of(case: &Value) -> lef21::LefLibrary {
         Some("off") => Some(lef21::LefOnOff::Off),
         _ => None,
     };
+    // `UNITS DATABASE MICRONS n ;` (and nothing else in UNITS): the importer must keep scaling microns to its own
+    // raw units whatever grid the LEF file declares for its database
+    if let Some(n) = case["dbu"].as_i64() {
+        let mut u = lef21::LefUnits::default();
+        u.database_microns = Some(lef21::LefDbuPerMicron::try_new(lef21::LefDecimal::from(n)).expect("legal DATABASE MICRONS value"));
+        lib.units = Some(u);
+    }
     for m in case["macros"].as_array().expect("macros") {
         let mut mac = lef21::LefMacro::new(m["name"].as_str().expect("macro name"));
         if !m["size"].is_null() {
